@@ -612,3 +612,46 @@ def run_restarts_after_fault(case, monitor):
     case["step_bound"] = 3 * (EC.STEP_BOUND_BASE + EC.STEP_BOUND_PER_OP * max(1, n_user)) + n_steps
     return EC.run_case(case, monitor, storage_factory="sqlite-file", hooks=dict(make_fault_plan=make_fault_plan),
                        oracles=("cursor", "index", "storage"))
+
+
+# ------------------------------------------------------------------ folder emptied and removed vs peer change of a child (C01)
+def tree_delete_vs_child_change(rng):
+    """C01 family (two-sided, same objects): side A moves the file(s) of a synchronised folder into a NEW folder and
+    removes the old folder, while side B overwrites (or renames inside the old folder) one of those files, which is
+    still at its old place there; any order of the engine's steps.  Both versions of the truth are acceptable outcomes
+    of the race as long as the two sides END EQUAL and the engine goes quiet (guards CONVERGE / BOUND / covered
+    versions); fresh names, both sides id-stable."""
+    cands = [f for f in CLEAN_FLAVOURS if not f.oip[0] and not f.oip[1]]
+    fl = rng.choice(cands)
+    g = EC.Gen(rng, fl, [0, 1], 0)
+    g.allow_empty = False
+    d = "/" + g.fresh("D")
+    g.base.append(["mkdir", g.abs(0, d)])
+    kids = []
+    for _ in range(rng.randint(1, 2)):
+        k = d + "/" + g.fresh("F")
+        kids.append(k)
+        g.base.append(["create", g.abs(0, k), g.content()])
+    g.sched.append(["drain"])
+    a = rng.choice([0, 1])
+    b = 1 - a
+    n = "/" + g.fresh("D")
+    a_ops = [["user", a, ["mkdir", g.abs(a, n)]]]
+    for k in kids:
+        a_ops.append(["user", a, ["rename", g.abs(a, k), g.abs(a, n + "/" + g.fresh("F"))]])
+    a_ops.append(["user", a, ["delete", g.abs(a, d)]])
+    victim = rng.choice(kids)
+    if rng.random() < 0.7:
+        b_op = ["user", b, ["write", g.abs(b, victim), g.content()]]
+    else:
+        b_op = ["user", b, ["rename", g.abs(b, victim), g.abs(b, d + "/" + g.fresh("F"))]]
+    pos = rng.randint(0, len(a_ops))
+    ops = a_ops[:pos] + [b_op] + a_ops[pos:]
+    for o in ops:
+        g.sched.append(o)
+        g.engine_noise(0.5)
+    for _ in range(rng.randint(0, 6)):
+        g.sched.append(rng.choice([["intake", 0], ["intake", 1], ["sync"]]))
+    g.sched.append(["drain"])
+    return dict(flavour=fl.key(), base=g.base, schedule=g.sched, hash_mult=rng.choice([1, 3, 7, 11, 2654435761]),
+                mode=dict(origin=None, check_spec=False, no_conflicted=False, cov_every_step=False))
